@@ -514,6 +514,28 @@ def setup_logging_base():
         x.propagate = False
 
 
+# ------------------------------------------------------------------ fileinput (process-global state in the stdlib)
+def _fi_input(files=None, *a, **kw):
+    import fileinput
+
+    w = kernel.W
+    if w is None or w.cur is None:
+        return REAL["fileinput.input"](files, *a, **kw)
+    fi = fileinput.FileInput(files, *a, **kw)
+    w.cur.tags["fileinput"] = fi
+    return fi
+
+
+def _fi_attr(name):
+    def f():
+        w = kernel.W
+        if w is None or w.cur is None or "fileinput" not in w.cur.tags:
+            return REAL["fileinput." + name]()
+        return getattr(w.cur.tags["fileinput"], name)()
+
+    return f
+
+
 # ------------------------------------------------------------------ install
 def install():
     global _installed
@@ -580,6 +602,14 @@ def install():
         return r
 
     shutil.copyfile = _copyfile
+
+    import fileinput
+
+    for name in ("input", "filename", "lineno", "filelineno", "close"):
+        REAL["fileinput." + name] = getattr(fileinput, name)
+    fileinput.input = _fi_input
+    for name in ("filename", "lineno", "filelineno"):
+        setattr(fileinput, name, _fi_attr(name))
 
     os.environ = EnvProxy(REAL["environ"])
     sys.stdout = StdRouter(REAL["stdout"], "out")
